@@ -5,7 +5,10 @@
 (* Part 1 is the INTENDED semantics: scalars are values, arrays and objects   *)
 (* live in a heap and are held by reference, so a mutation made through one   *)
 (* reference is visible through every other one by construction.              *)
-(* Part 2 are the array methods on that heap (the ideal list of C15).         *)
+(* Part 2 are the array methods on that heap (the ideal list of C15); part 2b *)
+(* evaluates statements with calls nested in arguments, every call acting on *)
+(* the array it was invoked on, and, as the named deviation `shared-receiver` *)
+(* (F12), with the receiver kept in one cell per method name (EvalD).        *)
 (* Part 3 is the alternative heap semantics of the pinned implementation      *)
 (* that the open finding `alias-length` (F10) names: an array value is a Go   *)
 (* slice header (backing, len, cap) that is copied on assignment, argument    *)
@@ -35,8 +38,7 @@ I(i) == [s |-> "idx", i |-> i]
 Path(b, ss) == [base |-> b, sels |-> ss]
 
 (* The three coercions of DESIGN.md 3.1 on the model's value universe        *)
-(* (integers; strings that are not numeric)                                  *)
-\* the model's numeric strings (every other string of the models is not numeric: 0)
+(* (integers; short strings, of which only the listed ones are numeric)      *)
 NumOfStr(s) == CASE s = "0" -> 0 [] s = "1" -> 1 [] s = "2" -> 2 [] s = "7" -> 7 [] s = "10" -> 10 [] OTHER -> 0
 NumOf(v) == CASE v.t = "num" -> v.n
               [] v.t = "bool" -> IF v.b THEN 1 ELSE 0
